@@ -394,6 +394,76 @@ class Result:
         return 1 if self.violations else 0
 
 
+def standard_setup(res, prop, generated, driver=True):
+    """Rebuild /repo (hooks on), regenerate tables, build driver, audit proofs.
+
+    Returns (bdir or None, audit dict, proof_problems list).  On a repo build failure a
+    VIOLATION (no-failing-input-found) is recorded and bdir is None."""
+    from translate import tables
+    proof_problems = []
+    try:
+        bdir = repo_build("hooks")
+    except BuildError as ex:
+        res.violation("build.json", dict(kind="build-failure", detail=str(ex)), no_input=True)
+        res.coverage = dict(obligations=1, discharged=0, checker_cmd="cmake --build", trusted_base=[],
+                            explanation="/repo's working tree does not build")
+        return None, dict(ok=False, obligations=1, discharged=0, theorems=[], axioms={}, problems=["build"]), ["build"]
+    try:
+        tables.regenerate(bdir, generated)
+    except tables.ExtractError as ex:
+        proof_problems.append("translator: " + str(ex))
+    if driver:
+        ok, out = lean_build(["asldrv"])
+        if not ok:
+            proof_problems.append("driver does not build: " + out[-1500:])
+    audit = lean_audit(prop)
+    if not audit["ok"]:
+        proof_problems += audit["problems"]
+    return bdir, audit, proof_problems
+
+
+def proof_coverage(audit, prop, extra_trusted=()):
+    return dict(
+        obligations=max(1, audit["obligations"]), discharged=audit["discharged"],
+        checker_cmd="lake build AslModel.Props.%s && lake env lean Audit/%s.lean (#print axioms of every theorem)" % (prop, prop),
+        trusted_base=["Lean 4.33 kernel", "axioms used: " + ",".join(sorted({a for v in audit["axioms"].values() for a in v}) or ["none"])] + list(extra_trusted),
+        theorems=audit["theorems"])
+
+
+def conclude(res, proof_problems, spec_fail, corr_fail, searched):
+    """Verdict logic of DESIGN.md 2.6.
+
+    spec_fail: list of dicts – the property fails on the *real implementation* for a concrete input
+               (each may carry 'sig': a signature string compared with known_findings.json).
+    corr_fail: list of dicts – model and implementation disagree but the spec held on that input.
+    proof_problems: list of strings – theorem/translator/audit failures.
+    """
+    known, _fixed = load_known_findings(res.prop)
+    known_sigs = {k["sig"]: k for k in known}
+    new_spec = []
+    seen_known = {}
+    for f in spec_fail:
+        s = f.get("sig")
+        if s is not None and s in known_sigs:
+            seen_known.setdefault(s, f)
+        else:
+            new_spec.append(f)
+    for s, f in seen_known.items():
+        res.known("%s (%s)" % (known_sigs[s]["what"], s))
+    for i, f in enumerate(new_spec[:5]):
+        res.violation("spec_%d.json" % i, dict(kind="property-violated-on-implementation", **f))
+    if not new_spec:
+        for i, c in enumerate(corr_fail[:3]):
+            res.violation("corr_%d.json" % i, dict(kind="correspondence-broken", **c), no_input=True)
+        if proof_problems:
+            res.violation("proof.json", dict(kind="proof-or-translator-broken", problems=proof_problems,
+                                             searched_inputs=searched), no_input=True)
+    res.coverage["spec_failures"] = len(spec_fail)
+    res.coverage["spec_failures_matching_known_findings"] = len(spec_fail) - len(new_spec)
+    res.coverage["disagreements_checked"] = len(corr_fail)
+    return res.finish()
+
+
 def rng_for(seed, tag):
     return random.Random("%s/%s" % (seed, tag))
 
